@@ -698,7 +698,7 @@ theorem pc_scriptRest {s : State} (hm : MInv s) {t : Tag} (hp : PlainTag t) (hn 
     · cases ht
   have htr : Tr s s4 (cpre ++ (c3 ++ [])) (fun x x' => x' = x.step [a].length
       [Edit.create a nsHtml t, Edit.insert place a] [] ∧ ∃ rest, x.supply = [a] ++ rest) := by
-    refine Tr.of_flat hm4 (cfgOf_sameButOpen hm f hx) he [a] _ [] ?_
+    refine Tr.of_flat hm4 (cfgOf_sameButOpen hm f hx) he [a] _ [] (FreshIds.of_size (by intro n hn; simp only [List.mem_singleton] at hn; subst hn; exact hfresh)) ?_
       (annot_push hx hm ho (by rw [hnm]; exact html_ne_annot _)) (by simp)
     intro tc htc
     rw [edits2_append, hpre, List.append_nil, ← edits2_edits, hc3]
